@@ -10,7 +10,9 @@ package main
 import (
 	"fmt"
 	"go/ast"
+	"bytes"
 	"go/parser"
+	"go/printer"
 	"go/token"
 	"os"
 	"path/filepath"
@@ -19,7 +21,8 @@ import (
 
 // the functions translated, in dependency order
 var arithTargets = []string{"ConvertNewTokenToShares", "ConvertNewShareToDecToken", "TotalTokensWithAsset",
-	"GetDelegationTokensWithShares", "GetDelegationSharesFromTokens", "GetValidatorShares", "ValidateDelegatedAmount"}
+	"GetDelegationTokensWithShares", "GetDelegationSharesFromTokens", "GetValidatorShares", "ValidateDelegatedAmount",
+	"SubtractDecCoinsWithRounding", "RewardsStarted"}
 
 // where each target lives
 var arithFiles = []string{"x/alliance/types/asset.go", "x/alliance/types/validator.go", "x/alliance/keeper/delegation.go"}
@@ -30,13 +33,20 @@ var errCode = map[string]string{"stakingtypes.ErrInsufficientShares": "insuffici
 // parameters of type sdk.Coin are carried as their amount
 var coinParams = map[string]bool{}
 
+// a small type environment for the loop fragment: "DecCoins" (a coin set) or "DecCoin" (one element of it)
+var varType = map[string]string{}
+
+// functions with a `for … range` are emitted with `let mut` / `for … in … do`
+var mutStyle = false
+
 var leanType = map[string]string{
 	"math.LegacyDec": "Dec", "math.Int": "Int", "AllianceAsset": "Asset", "AllianceValidator": "ValInfo",
-	"Delegation": "Delegation", "string": "Denom", "sdk.Coin": "Int",
+	"Delegation": "Delegation", "string": "Denom", "sdk.Coin": "Int", "sdk.DecCoins": "DecCoins", "time.Time": "Time", "bool": "Bool",
 }
 
 var fieldName = map[string]string{
 	"Denom": "denom", "TotalTokens": "totalTokens", "TotalValidatorShares": "totalValShares", "Shares": "shares",
+	"RewardStartTime": "startTime",
 }
 
 type trErr struct{ msg string }
@@ -103,6 +113,14 @@ func expr(e ast.Expr) string {
 			if coinParams[id.Name] && x.Sel.Name == "Amount" {
 				return id.Name
 			}
+			if varType[id.Name] == "DecCoin" {
+				switch x.Sel.Name {
+				case "Denom":
+					return "(" + id.Name + ").1"
+				case "Amount":
+					return "(" + id.Name + ").2"
+				}
+			}
 		}
 		f, ok := fieldName[x.Sel.Name]
 		if !ok {
@@ -138,6 +156,24 @@ func expr(e ast.Expr) string {
 					return "GoSem.oneDec"
 				case "math.LegacyZeroDec":
 					return "(0 : Dec)"
+				case "sdk.NewDecCoins":
+					if len(x.Args) != 1 {
+						fail("sdk.NewDecCoins arity")
+					}
+					if id, ok := x.Args[0].(*ast.Ident); ok {
+						if x.Ellipsis.IsValid() && varType[id.Name] == "DecCoins" {
+							return "(GoSem.newDecCoins " + id.Name + ")"
+						}
+						if !x.Ellipsis.IsValid() && varType[id.Name] == "DecCoin" {
+							return "(GoSem.singleDecCoin (" + id.Name + ").1 (" + id.Name + ").2)"
+						}
+					}
+					if c, ok := x.Args[0].(*ast.CallExpr); ok {
+						if sel, ok := c.Fun.(*ast.SelectorExpr); ok && sel.Sel.Name == "NewDecCoinFromDec" && len(c.Args) == 2 {
+							return "(GoSem.singleDecCoin " + expr(c.Args[0]) + " " + expr(c.Args[1]) + ")"
+						}
+					}
+					fail("unsupported argument of sdk.NewDecCoins")
 				case "sdk.NewCoin":
 					if len(x.Args) != 2 {
 						fail("sdk.NewCoin arity")
@@ -160,7 +196,12 @@ func expr(e ast.Expr) string {
 			case "Add":
 				return "(GoSem.add " + recv + " " + args(x.Args) + ")"
 			case "Sub":
+				if id, ok := f.X.(*ast.Ident); ok && varType[id.Name] == "DecCoins" {
+					return "(← GoSem.decCoinsSub " + recv + " " + args(x.Args) + ")"
+				}
 				return "(GoSem.sub " + recv + " " + args(x.Args) + ")"
+			case "AmountOf":
+				return "(GoSem.amountOf " + recv + " " + args(x.Args) + ")"
 			case "TruncateInt":
 				return "(GoSem.truncateInt " + recv + ")"
 			case "TruncateDec":
@@ -172,7 +213,12 @@ func expr(e ast.Expr) string {
 			case "GT":
 				return "(GoSem.gt " + recv + " " + args(x.Args) + ")"
 			case "Equal":
+				if id, ok := f.X.(*ast.Ident); ok && varType[id.Name] == "Time" {
+					return "(GoSem.timeEq " + recv + " " + args(x.Args) + ")"
+				}
 				return "(GoSem.intEq " + recv + " " + args(x.Args) + ")"
+			case "After":
+				return "(GoSem.timeAfter " + recv + " " + args(x.Args) + ")"
 			case "TotalTokensWithAsset":
 				return "(← TotalTokensWithAsset " + recv + " " + args(x.Args) + ")"
 			case "TotalDelegationSharesWithDenom":
@@ -217,8 +263,46 @@ func stmts(list []ast.Stmt, ind string) string {
 			if !ok {
 				fail("assignment to a non-identifier")
 			}
+			if c, ok := x.Rhs[0].(*ast.CallExpr); ok {
+				if sel, ok := c.Fun.(*ast.SelectorExpr); ok && sel.Sel.Name == "NewDecCoins" {
+					varType[id.Name] = "DecCoins"
+				}
+			}
+			if mutStyle {
+				if x.Tok == token.DEFINE {
+					b.WriteString(ind + "let mut " + id.Name + " := " + expr(x.Rhs[0]) + "\n")
+				} else {
+					b.WriteString(ind + id.Name + " := " + expr(x.Rhs[0]) + "\n")
+				}
+				continue
+			}
 			b.WriteString(ind + "let " + id.Name + " := " + expr(x.Rhs[0]) + "\n")
+		case *ast.RangeStmt:
+			if !mutStyle {
+				fail("range statement outside the loop fragment")
+			}
+			v, ok := x.Value.(*ast.Ident)
+			xs, ok2 := x.X.(*ast.Ident)
+			if k, isId := x.Key.(*ast.Ident); !ok || !ok2 || !isId || k.Name != "_" || varType[xs.Name] != "DecCoins" {
+				fail("unsupported range statement")
+			}
+			varType[v.Name] = "DecCoin"
+			b.WriteString(ind + "for " + v.Name + " in " + xs.Name + " do\n")
+			b.WriteString(stmts(x.Body.List, ind+"  "))
 		case *ast.IfStmt:
+			if mutStyle && x.Init == nil {
+				b.WriteString(ind + "if " + expr(x.Cond) + " then\n")
+				b.WriteString(stmts(x.Body.List, ind+"  "))
+				if x.Else != nil {
+					eb, ok := x.Else.(*ast.BlockStmt)
+					if !ok {
+						fail("else-if")
+					}
+					b.WriteString(ind + "else\n")
+					b.WriteString(stmts(eb.List, ind+"  "))
+				}
+				continue
+			}
 			if x.Init != nil || x.Else != nil {
 				fail("if with init/else")
 			}
@@ -248,6 +332,14 @@ func typeStrSafe(e ast.Expr) string {
 func translateFunc(fd *ast.FuncDecl) string {
 	var params []string
 	coinParams = map[string]bool{}
+	varType = map[string]string{}
+	mutStyle = false
+	ast.Inspect(fd.Body, func(n ast.Node) bool {
+		if _, ok := n.(*ast.RangeStmt); ok {
+			mutStyle = true
+		}
+		return true
+	})
 	if fd.Recv != nil {
 		for _, f := range fd.Recv.List {
 			if typeStr(f.Type) == "Keeper" {
@@ -262,6 +354,12 @@ func translateFunc(fd *ast.FuncDecl) string {
 		for _, n := range f.Names {
 			if typeStr(f.Type) == "sdk.Coin" {
 				coinParams[n.Name] = true
+			}
+			if typeStr(f.Type) == "sdk.DecCoins" {
+				varType[n.Name] = "DecCoins"
+			}
+			if typeStr(f.Type) == "time.Time" {
+				varType[n.Name] = "Time"
 			}
 			params = append(params, "("+n.Name+" : "+mapType(f.Type)+")")
 		}
@@ -324,5 +422,104 @@ func translateArith(repo, out string) {
 			body += translateFunc(fd) + "\n"
 		}
 	}()
-	_ = os.WriteFile(out, []byte(header+body+"end Generated\nend Alliance\n"), 0o644)
+	_ = os.WriteFile(out, []byte(header+body+guardFacts(repo)+skeletonFacts(repo)+"end Generated\nend Alliance\n"), 0o644)
+}
+
+// guardFacts: for every method of keeper.MsgServer, the conditions of its top-level validation guards (an `if` whose
+// body returns, and whose condition does not test `err`), in source order, as source text. The Lean side pins them
+// (`C16.msg_guards_as_modelled`): a changed comparator, constant, operand or order of a guard breaks a `decide`.
+func guardFacts(repo string) string {
+	fset := token.NewFileSet()
+	f, err := parser.ParseFile(fset, filepath.Join(repo, "x/alliance/keeper/msg_server.go"), nil, 0)
+	if err != nil {
+		return "theorem guard_facts_unreadable : (0 : Nat) = 1 := rfl\n"
+	}
+	var b strings.Builder
+	b.WriteString("/-- validation guards of the message server, per handler, in source order -/\ndef msgGuards : List (String × List String) := [\n")
+	first := true
+	for _, d := range f.Decls {
+		fd, ok := d.(*ast.FuncDecl)
+		if !ok || fd.Recv == nil || fd.Body == nil || len(fd.Recv.List) != 1 || typeStrSafe(fd.Recv.List[0].Type) != "MsgServer" {
+			continue
+		}
+		var conds []string
+		for _, st := range fd.Body.List {
+			is, ok := st.(*ast.IfStmt)
+			if !ok || is.Init != nil {
+				continue
+			}
+			returns := false
+			for _, bs := range is.Body.List {
+				if _, ok := bs.(*ast.ReturnStmt); ok {
+					returns = true
+				}
+			}
+			var buf bytes.Buffer
+			_ = printer.Fprint(&buf, fset, is.Cond)
+			c := buf.String()
+			if !returns || strings.Contains(c, "err") {
+				continue
+			}
+			conds = append(conds, c)
+		}
+		if !first {
+			b.WriteString(",\n")
+		}
+		first = false
+		q := make([]string, len(conds))
+		for i, x := range conds {
+			q[i] = fmt.Sprintf("%q", x)
+		}
+		fmt.Fprintf(&b, "  (%q, [%s])", fd.Name.Name, strings.Join(q, ", "))
+	}
+	b.WriteString("\n]\n\n")
+	return b.String()
+}
+
+
+// skeletonFacts: the first source line of every top-level statement of the staking hooks (keeper/hooks.go) and of the
+// end blocker (abci.go). Pinned on the Lean side (`C08.hook_bodies_as_modelled`, `C17.end_blocker_body_as_modelled`): an
+// added early return, a dropped or reordered call in these few short functions breaks an `rfl`.
+func skeletonFacts(repo string) string {
+	firstLines := func(fset *token.FileSet, body *ast.BlockStmt) string {
+		var q []string
+		for _, st := range body.List {
+			var buf bytes.Buffer
+			_ = printer.Fprint(&buf, fset, st)
+			line := strings.SplitN(buf.String(), "\n", 2)[0]
+			q = append(q, fmt.Sprintf("%q", line))
+		}
+		return "[" + strings.Join(q, ", ") + "]"
+	}
+	var b strings.Builder
+	fset := token.NewFileSet()
+	f, err := parser.ParseFile(fset, filepath.Join(repo, "x/alliance/keeper/hooks.go"), nil, 0)
+	if err != nil {
+		return "theorem hook_facts_unreadable : (0 : Nat) = 1 := rfl\n"
+	}
+	b.WriteString("/-- first source line of every top-level statement of each staking hook -/\ndef hookStatements : List (String × List String) := [\n")
+	first := true
+	for _, d := range f.Decls {
+		fd, ok := d.(*ast.FuncDecl)
+		if !ok || fd.Recv == nil || fd.Body == nil || len(fd.Recv.List) != 1 || typeStrSafe(fd.Recv.List[0].Type) != "Hooks" {
+			continue
+		}
+		if !first {
+			b.WriteString(",\n")
+		}
+		first = false
+		fmt.Fprintf(&b, "  (%q, %s)", fd.Name.Name, firstLines(fset, fd.Body))
+	}
+	b.WriteString("\n]\n\n")
+	f2, err := parser.ParseFile(fset, filepath.Join(repo, "x/alliance/abci.go"), nil, 0)
+	if err != nil {
+		return b.String() + "theorem abci_facts_unreadable : (0 : Nat) = 1 := rfl\n"
+	}
+	for _, d := range f2.Decls {
+		if fd, ok := d.(*ast.FuncDecl); ok && fd.Name.Name == "EndBlocker" && fd.Body != nil {
+			b.WriteString("/-- first source line of every top-level statement of the end blocker -/\n")
+			fmt.Fprintf(&b, "def endBlockStatements : List String := %s\n\n", firstLines(fset, fd.Body))
+		}
+	}
+	return b.String()
 }
